@@ -5,7 +5,7 @@ CONSTANTS
   Full = TRUE
   MaxSteps = 5
   Subs <- SubsFew
-  MaxNote = 3
+  MaxNote = 4
   Fix <- NoFix
 VIEW View
 INVARIANTS Correlated Gated
